@@ -57,6 +57,8 @@ def run_history(inst):
                 w.queue_set_var_lower_bound(handles[op[1]], op[2])
             elif kind == "obj":
                 expr = w.quicksum(c * handles[v] for v, c in op[1])
+                if len(op) > 3 and op[3] != 0:
+                    expr = expr + op[3]          # objective with a constant term
                 w.set_objective(expr, sense=op[2])
             elif kind == "opt":
                 w.optimize()
